@@ -23,7 +23,7 @@ m = {
     "setup_cmd": "./setup.sh",
     "hooks": {
         "guard": "verif",
-        "enable": "go build -tags verif (the harness under /verif/harness imports /repo through a replace directive; no hook files were needed so far)",
+        "enable": "go build -tags verif (the harness under /verif/harness imports /repo through a replace directive); one hook file: x/evm/statedb/verif_hooks.go (StateDB.VerifDirtyCount, read-only, used by the C05 store-trace monitor)",
         "baseline_off_cmd": "cd /repo && go test -vet=off -count=1 -timeout 25m ./...",
         "source_commits": HOOK_COMMITS,
         "add_only": True,
